@@ -447,12 +447,21 @@ class TaskScenario(ScenarioData):
         if self.currentSlotIdx is None:
             if forward:
                 start_date = self.property.get("start", self.scenarioIdx)
+                inherited_start = None
+                if start_date and not self.property.provided("start", self.scenarioIdx):
+                    # A start date inherited from an enclosing container is only a lower
+                    # bound for its children; their dependencies still apply.
+                    inherited_start = start_date
+                    start_date = None
+                    self.property[("start", self.scenarioIdx)] = None
                 if start_date:
                     self.currentSlotIdx = self.project.dateToIdx(start_date)
                 else:
                     # ASAP mode, start at project start or after dependencies
                     # Check ALL dependencies (including inherited) to find the earliest start
                     earliest_start = self.project["start"]
+                    if inherited_start and inherited_start > earliest_start:
+                        earliest_start = inherited_start
                     for dep in self.getAllDependencies():
                         # dep can be a dict with 'task' key (new format with gap),
                         # or a Task object directly (old format)
